@@ -53,6 +53,17 @@ def write_host(dirpath, names, depth=1, method=False, caller_locals=False, tag='
                   '    return Local()', '', '',
                   'def leaf(*args):',
                   '    return make_obj().run(*args)', '', '']
+    elif kind == 'module':
+        # top-level code: the paused frame is a <module> frame whose locals are its globals (built-ins included)
+        lines += ["TOP_SRC = '''\\"]
+        first = len(lines) + 1    # file line of the first line of the embedded source
+        lines += ['[%s] = ARGS' % params,
+                  'marker = 0  # @hit',
+                  "'''", '', '',
+                  'def leaf(*args):',
+                  '    ns = {"__name__": "top_level_host", "ARGS": args}',
+                  '    exec(compile("\\n" * %d + TOP_SRC, __file__, "exec"), ns)' % (first - 1),
+                  '    return ns["marker"]', '', '']
     else:
         lines += ['def leaf(%s):' % params,
                   '    marker = 0  # @hit',
